@@ -507,8 +507,26 @@ impl Tcp {
         self.sockets.len()
     }
 
-    pub(crate) fn accept(&mut self, addr: SocketAddr) -> Option<(Syn, SocketAddr)> {
-        self.binds[&addr.port()].deque.pop_front()
+    /// Next pending connection for the listener bound to `addr`, if any.
+    ///
+    /// A request whose address pair still has a stream on this host cannot be
+    /// connected a second time: it is discarded here, un-acked, which the
+    /// connector observes as a refused connection.
+    pub(crate) fn accept(
+        &mut self,
+        addr: SocketAddr,
+        host_addr: IpAddr,
+    ) -> Option<(Syn, SocketAddr)> {
+        loop {
+            let (syn, origin) = self.binds[&addr.port()].deque.pop_front()?;
+            let pair = SocketPair {
+                local: accepted_local_addr(addr, origin, host_addr),
+                remote: origin,
+            };
+            if !self.sockets.contains_key(&pair) {
+                return Some((syn, origin));
+            }
+        }
     }
 
     // Ideally, we could "write through" the tcp software, but this is necessary
@@ -607,6 +625,23 @@ pub fn matches(bind: SocketAddr, dst: SocketAddr) -> bool {
     }
 
     bind == dst
+}
+
+/// The local address of the stream a listener bound to `bind` accepts for a
+/// connection from `origin`, on the host with address `host_addr`.
+pub(crate) fn accepted_local_addr(
+    bind: SocketAddr,
+    origin: SocketAddr,
+    host_addr: IpAddr,
+) -> SocketAddr {
+    let mut local = bind;
+    if origin.ip().is_loopback() {
+        local.set_ip(origin.ip());
+    }
+    if local.ip().is_unspecified() {
+        local.set_ip(host_addr);
+    }
+    local
 }
 
 /// Returns true if loopback is supported between two addresses, or
